@@ -105,10 +105,10 @@ Definition judge (cs : list case) := judge_all judge1 cs.
 Definition trim_fixed (j dj : val) : option val := if py_eq j dj then None else Some j.
 
 Definition dump_entry_fx (yl : str -> option val) (vr : variant) (lf : leaf) (w : val) : entry :=
-  match cleanup yl true (vr_skip_none vr) (lf_ty lf) w with
+  match cleanup yl true (vr_skip_none vr) (lf_ty lf) (lf_def lf) w with
   | EPresent j =>
       if vr_skip_default vr then
-        match cleanup yl false (vr_skip_none vr) (lf_ty lf) (lf_def lf) with
+        match cleanup yl false (vr_skip_none vr) (lf_ty lf) (lf_def lf) (lf_def lf) with
         | EPresent dj => match trim_fixed j dj with Some j' => EPresent j' | None => EAbsent end
         | _ => EPresent j
         end
